@@ -149,10 +149,12 @@ template <class Alg> void run_job(const Plan &p, const std::vector<EventData> &e
   } catch (std::exception &e) { out() << "INIT THROW " << hex(e.what()) << "\n"; return; }
   trees().schema();
   edm::Event ev; edm::EventSetup es;
+  int vm_prev = -1;
   for (int ei : p.events) {
     store().set(&evs.at(ei));
     out() << "BEGIN " << ei << "\n"; out().flush();
     try {
+      scribble(vm_prev); vm_prev = ei;      // what an uninitialised local of the event code finds depends on the event before
       alg->vm_do_event(ev, es);
       out() << "END ok\n";
     } catch (NullDeref &) { out() << "END NULLDEREF\n"; break; }
